@@ -2,6 +2,7 @@ import DirectVerif.Lemmas.C08Sound
 import DirectVerif.Lemmas.C08Enum
 import DirectVerif.Lemmas.C08Consist
 import DirectVerif.Lemmas.C08Shape
+import DirectVerif.Lemmas.C08Tags
 /-!
 # C08 — the training transform pipeline is scale-equivariant and self-consistent
 
@@ -16,7 +17,7 @@ programs `compile`, their semantics `run` (what the driver executes) and the deg
 * `pipeline_equivariant` — soundness ∘ type check: `run (c·x)` equals `run x` on every normalised key
   and the scaling factor is multiplied by `c`.
 * `masked_is_mask_of_normalised`, `target_is_recon_of_normalised` (+ the SSL variant).
-* `crop_shape_partial`, `same_filename_same_mask`.
+* `shape_tags`, `crop_shape` (all flags), `same_filename_same_mask`, `same_filename_same_crop`, `wrapper_equiv`.
 * witnesses that the check rejects the mutants the property is about (`*_rejected`).
 -/
 set_option linter.unusedSectionVars false
@@ -145,7 +146,7 @@ theorem pipeline_equivariant {sqrt : K → K} (hs : SqrtHom sqrt) {X : Ext K} (h
   | error er => simp [ht] at hl
   | ok e =>
     simp only [ht, finalOk, Bool.and_eq_true] at hl
-    obtain ⟨⟨⟨⟨⟨hsf, hnorm⟩, htg⟩, _⟩, _⟩, _⟩ := hl
+    obtain ⟨⟨⟨⟨hsf, hnorm⟩, htg⟩, _⟩, _⟩ := hl
     obtain ⟨out, h1, h2, h3⟩ := exec_sound hs hX c hc m (program l) initEnv e (rawStore x) (agree_init x) ht
     refine ⟨out, scaleS c e out, h1, ?_, ?_, ?_, ?_⟩
     · have : run (fieldOps sqrt) X m l (scaleV c x) = exec (fieldOps sqrt) X m (program l) (rawStore (scaleV c x)) := rfl
@@ -263,23 +264,43 @@ example : degreesOk false (build {}) = true := pipeline_degrees_ok {} (by decide
 
 /-! ## crop shape -/
 
-/-- **`crop_shape_partial`**: with a tuple crop, for every reconstruction type, centre or random crop,
-supervised and SSL, sensitivity maps off / unit / RSS, zero-padding stage on / off and both scaling
-keys (the remaining flags at their defaults), every tensor output — masked k-space, k-space, target,
-sensitivity map, all masks — carries the crop shape tag, and every broadcast on the way (mask × k-space,
-padding × mask, map × image) was between equal shapes.
-*Partial*: the full statement quantifies over all flags (as `pipeline_degrees_ok` does); the shape
-interpreter has no neutral-instruction reduction, so the other flags are fixed.  The sizes themselves are
-C10's `center_crop_length`; the real shapes are checked by the oracle. -/
-theorem crop_shape_partial (center : Bool) (r : Recon) (ssl es unitMap pe skK : Bool)
-    (hv : (cropCfg center r ssl es unitMap pe skK).valid = true) :
-    cropShapeOk (build (cropCfg center r ssl es unitMap pe skK)) = true := by
-  have h := allB'_spec (allB'_spec (allB'_spec (allB'_spec (allB'_spec (allB'_spec (cropEnum_all r) center) ssl) es)
-    unitMap) pe) skK
-  simp only [hv, Bool.not_true, Bool.false_or] at h
-  exact h
+/-- **`shape_tags`** — for **every** valid configuration of the 24 flags in which a tuple crop is not followed by
+pad / rescale (then `CreateSamplingMask` would build the mask for the crop shape while the k-space has another
+one: the code raises, see the evidence notes): the shape-tag interpreter succeeds on the composed pipeline —
+every broadcast (mask × k-space, padding × mask, map × image, scaling factor × k-space) is between equal shapes
+or with a scalar — and every tensor output carries the tag `finalSp cfg` (`padded` if `pad`, else `rescaled` if
+`rescale`, else `cropped` if `crop` is a tuple **or a sample key** such as `reconstruction_size`, else `raw`); the
+scaling factor is a scalar.  Tags do not depend on the rank: the statement covers 2-D and 3-D samples (a 2-tuple
+crop of a 3-D sample keeps the slice axis). -/
+theorem shape_tags (cfg : Config) (hv : cfg.valid = true)
+    (hc : cfg.crop = .tuple → cfg.rescale = false ∧ cfg.pad = false) :
+    ∃ ed, typeProgram (program (build cfg)) initEnv = .ok ed
+      ∧ absProgram opSp (program (build cfg)) initSp = .ok (tagEnv (finalSp cfg) ed) := by
+  have h := pipeline_degrees_ok cfg hv
+  unfold degreesOk at h
+  cases hd : typeProgram (program (build cfg)) initEnv with
+  | error er => simp [hd] at h
+  | ok ed => exact ⟨ed, rfl, shape_tags_of_degrees cfg hc ed hd⟩
 
-example : (cropCfg true .rss false true false true false).valid = true := by decide
+/-- **`crop_shape`** (full): with a crop — tuple or sample key, centre or random — and no later change of the
+spatial size, every tensor the pipeline outputs (masked k-space, k-space, target, sensitivity map, all masks,
+body-coil image, the SSL inputs) has the crop shape tag; for all other flags.  The sizes behind the tag are
+C10's `center_crop_length`; the real shapes (2-D and 3-D) are checked by the oracle. -/
+theorem crop_shape (cfg : Config) (hv : cfg.valid = true) (hcrop : cfg.crop ≠ .none)
+    (hr : cfg.rescale = false) (hp : cfg.pad = false) :
+    ∃ e, absProgram opSp (program (build cfg)) initSp = .ok e
+      ∧ ∀ k t, e k = some t → k ≠ .scalingFactor → t = .cropped := by
+  obtain ⟨ed, _, h⟩ := shape_tags cfg hv (fun _ => ⟨hr, hp⟩)
+  refine ⟨_, h, ?_⟩
+  intro k t hk hne
+  have hf : finalSp cfg = .cropped := by
+    unfold finalSp; simp [hr, hp]; cases hcr : cfg.crop <;> simp_all
+  unfold tagEnv at hk
+  cases hek : ed k with
+  | none => simp [hek] at hk
+  | some d => simp [hek, tagOf, hne, hf] at hk; exact hk.symm
+
+example : ({ crop := .name, imageCenterCrop := false, ssl := true } : Config).valid = true := by decide
 
 /-- a sampling mask generated for the un-cropped shape is rejected (`shape=` dropped from
 `CreateSamplingMask` while the k-space is cropped … is fine: the mask then takes the k-space's shape;
@@ -304,6 +325,15 @@ theorem same_filename_same_mask {sqrt : K → K} (X : Ext K) (m m' : Meta) (hf :
   obtain ⟨h1, h2, h3⟩ := hshape
   simp [evalOp, seedOf, seedVal, hf, h1, h2, h3]
 
+/-- **`same_filename_same_crop`** — the random crop (`image_center_crop = False`, seeding enabled) is
+taken at an offset seeded by the file name only (`cropSeedFields`, translated from `CropKspace.__call__`
+and bridged): for two slices of one file the crop *operator* is the same function of the tensor. -/
+theorem same_filename_same_crop {sqrt : K → K} (X : Ext K) (m m' : Meta) (hf : m.filename = m'.filename)
+    (center : Bool) (x : Val K) :
+    evalOp (fieldOps sqrt) X m (.lin (.crop center true)) [x]
+      = evalOp (fieldOps sqrt) X m' (.lin (.crop center true)) [x] := by
+  simp [evalOp, cropSeedFields, seedVal, hf]
+
 /-- … and that is the seed of *every* sampling / ACS mask generation in the composed pipeline, for every
 configuration with `use_seed` (no `slice_no`, no unseeded draw). -/
 theorem mask_seeds_filename_only (cfg : Config) (hu : cfg.useSeed = true) :
@@ -315,5 +345,33 @@ theorem slice_seed_rejected :
 
 /-- … and with such a seed two slices of one file do get different seeds -/
 example : seedVal ⟨[102], [48]⟩ [.filename, .sliceNo] ≠ seedVal ⟨[102], [49]⟩ [.filename, .sliceNo] := by decide
+
+/-! ## `ModuleWrapper` -/
+
+/-- toggling out undoes toggling in, for tensors of every shape and for plain values -/
+theorem toggle_roundtrip {α β} (e : Entry α β) (h : ∀ l, e ≠ .vals l) : e.toggleIn.toggleOut = e := by
+  cases e with
+  | tensor t => simp [Entry.toggleIn, Entry.toggleOut, Shaped.unsqueeze0, Shaped.squeeze0]
+  | val v => rfl
+  | vals l => exact absurd rfl (h l)
+
+/-- **`wrapper_equiv`** — applying a wrapped module (`toggle_dims=True`) to an un-batched sample equals the
+un-batched transformation `g`, whenever the module's `forward` acts on a batch of one as `g` acts on its single
+element (`forward ∘ toggleIn = toggleIn ∘ g` — checked on every wrapped module class by the oracle, which
+compares the wrapper with `forward` on a batch of two copies) and `g` produces tensors / plain values. -/
+theorem wrapper_equiv {α β} (forward g : WSample α β → WSample α β) (s : WSample α β)
+    (hlift : forward (fun k => (s k).map Entry.toggleIn) = fun k => (g s k).map Entry.toggleIn)
+    (hplain : ∀ k e, g s k = some e → ∀ l, e ≠ .vals l) :
+    wrapToggle forward s = g s := by
+  funext k
+  unfold wrapToggle
+  rw [hlift]
+  cases hk : g s k with
+  | none => simp [hk]
+  | some e => simp [hk, toggle_roundtrip e (hplain k e hk)]
+
+/-- the hypotheses are satisfiable: the identity module -/
+example {α β} (s : WSample α β) (h : ∀ k e, s k = some e → ∀ l, e ≠ .vals l) : wrapToggle id s = s :=
+  wrapper_equiv id id s rfl h
 
 end DirectVerif.C08
